@@ -17,6 +17,8 @@ import (
 	"encoding/hex"
 	"fmt"
 	"image"
+	"os"
+	"path/filepath"
 	"runtime/debug"
 	"time"
 
@@ -379,7 +381,93 @@ func mutate(rng *Rand, seeds []seed) (string, []byte) {
 		}
 		return lo, hi
 	}
-	switch k := rng.Intn(13); k {
+	// payload spans of the chunks with a given tag (top level and inside ANMF)
+	payloads := func(tag string) [][2]int {
+		var out [][2]int
+		for _, o := range offs {
+			if string(b[o:o+4]) == tag {
+				sz := int(binary.LittleEndian.Uint32(b[o+4 : o+8]))
+				if o+8+sz <= len(b) && sz > 0 {
+					out = append(out, [2]int{o + 8, sz})
+				}
+			}
+		}
+		return out
+	}
+	flipIn := func(lo, n, count int) {
+		if n <= 0 {
+			return
+		}
+		for i := 0; i < count; i++ {
+			p := lo + rng.Intn(n)
+			if p < len(b) {
+				b[p] ^= 1 << uint(rng.Intn(8))
+			}
+		}
+	}
+	switch k := rng.Intn(17); k {
+	case 13: // VP8L: transform headers / prefix-code tables (the bits right after the 5-byte header), or deep in the entropy-coded data
+		ps := payloads("VP8L")
+		if len(ps) == 0 {
+			return "random", rng.Bytes(17)
+		}
+		p := ps[rng.Intn(len(ps))]
+		switch rng.Intn(3) {
+		case 0:
+			flipIn(p[0]+5, minInt(p[1]-5, 12), rng.Range(1, 3)) // transform bits, colour-cache bits, meta prefix codes
+		case 1:
+			flipIn(p[0]+5, minInt(p[1]-5, 64), rng.Range(1, 4)) // code-length codes / prefix-code tables
+		default:
+			flipIn(p[0]+5, p[1]-5, rng.Range(1, 3))
+		}
+		return "vp8l-codec", b
+	case 14: // VP8: first-partition size (19 bits in the frame tag), partition bytes, token partition sizes
+		ps := payloads("VP8 ")
+		if len(ps) == 0 {
+			return "random", rng.Bytes(18)
+		}
+		p := ps[rng.Intn(len(ps))]
+		if p[1] < 12 {
+			return "vp8-codec", b
+		}
+		switch rng.Intn(4) {
+		case 0: // partition-0 size field
+			tag := uint32(b[p[0]]) | uint32(b[p[0]+1])<<8 | uint32(b[p[0]+2])<<16
+			sizes := []uint32{0, 1, uint32(p[1]), uint32(p[1]) - 9, uint32(p[1]) - 10, uint32(p[1]) - 11, 1<<19 - 1, (tag >> 5) + 1, (tag >> 5) - 1}
+			tag = tag&0x1f | sizes[rng.Intn(len(sizes))]<<5
+			b[p[0]], b[p[0]+1], b[p[0]+2] = byte(tag), byte(tag>>8), byte(tag>>16)
+		case 1: // frame-tag flag bits (key frame, version, show_frame)
+			b[p[0]] ^= byte(1 << uint(rng.Intn(5)))
+		case 2: // header / mode partition bytes (segment, filter, quantiser, probability updates)
+			flipIn(p[0]+10, minInt(p[1]-10, 40), rng.Range(1, 4))
+		default: // anywhere in the partitions
+			flipIn(p[0]+10, p[1]-10, rng.Range(1, 3))
+		}
+		return "vp8-codec", b
+	case 15: // ALPH: header byte (compression / filter / pre-processing / reserved bits) and first payload bytes
+		ps := payloads("ALPH")
+		if len(ps) == 0 {
+			return "random", rng.Bytes(19)
+		}
+		p := ps[rng.Intn(len(ps))]
+		if rng.Intn(3) != 0 {
+			b[p[0]] = byte(rng.U64())
+		} else {
+			flipIn(p[0]+1, minInt(p[1]-1, 24), rng.Range(1, 3))
+		}
+		return "alph-codec", b
+	case 16: // swap the bitstreams of two image chunks' sizes: VP8 data under a VP8L tag and vice versa
+		for _, o := range offs {
+			t := string(b[o : o+4])
+			if t == "VP8 " && rng.Bool() {
+				b[o+3] = 'L'
+				break
+			} else if t == "VP8L" && rng.Bool() {
+				b[o+3] = ' '
+				break
+			}
+		}
+		return "codec-retag", b
 	case 0:
 		return "random", rng.Bytes(rng.Pick(0, 1, 11, 12, 13, 19, 20, 21, 30, 64, 200))
 	case 1: // random bytes behind a valid RIFF/WEBP header
@@ -531,7 +619,19 @@ func evalInput(c *Ctx, kind string, b []byte) {
 
 	big := declaredArea(b) > maxDeclaredArea
 	vec := ""
+	seqFailed := false
 	for _, e := range entries {
+		if e.name == "animation.DecodeFramesParallel" {
+			// a panic inside the library's worker goroutines cannot be recovered here and would kill the
+			// harness: the same frames were just decoded sequentially; skip the parallel call when that
+			// already panicked or hung, and leave the input on disk in case the process dies anyway
+			if seqFailed {
+				c.Count("skipped-parallel-after-sequential-failure")
+				vec += "s"
+				continue
+			}
+			os.WriteFile(filepath.Join(c.OutDir, "last_parallel_input.hex"), []byte(hx), 0o644)
+		}
 		if hung[e.name] >= 2 {
 			// this entry point already hung twice (each leaves a spinning goroutine behind):
 			// the violation is recorded, do not burn the rest of the run on it
@@ -549,6 +649,9 @@ func evalInput(c *Ctx, kind string, b []byte) {
 		c.Count(e.name + "-" + o.class)
 		if o.class == "timeout" {
 			hung[e.name]++
+		}
+		if (o.class == "panic" || o.class == "timeout") && e.name == "animation.DecodeFrames+AnimDecoder" {
+			seqFailed = true
 		}
 		if o.class == "panic" || o.class == "timeout" {
 			key := o.class + "-" + e.name
